@@ -41,6 +41,8 @@ NA = {
  "C47": "MessageSet encoding: pure codec, reachable only through a build tag",
 }
 
+REFL = """Seeded histories are applied in lock-step to an abstract message model (written against the protoreflect contract, sharing no code with internal/impl or dynamicpb) and to the real message in every flavor (open proto2/proto3/editions, hybrid, opaque with more than 32 presence bits, extension-bearing; generated or dynamicpb). Exclusive mutation phases alternate with phases in which 1-4 clients issue non-mutating calls concurrently under a seeded scheduler (and, in the race build, the race detector: obtaining a read-only view must not write). After every step the full observation (Has, Get incl. defaults, lists, maps, nested messages, oneof selection, unknown fields, extensions, Range) is compared with the model; """
+
 CHECKS = {
  "C27": dict(level="fault_enumeration", ref="DESIGN.md section 4 (C27)",
    text="Every truncation point of every generated stream is executed (exhaustive torn-tail enumeration per stream) against a list-of-frames reference model, crossed with seeded reader kinds, bufio sizes, chunkings, MaxSize values, injected reader errors, failing writers and a scheduled writer/reader pair over a blocking pipe with a crashing writer. The fault space that decides this property (where the stream ends, how the reader delivers it) is enumerated or densely sampled; messages are seeded.",
@@ -82,6 +84,18 @@ CHECKS = {
    text="Seeded CodeGeneratorRequests over the ~100 linked files (1-4 files to generate, dependencies in topological order, seeded parameter strings) are run in-process the way protoc-gen-go's main does under 8 seeds of the Go map iteration order (runtime seam), once with file_to_generate permuted, and 2-3 times through the real protoc-gen-go binary built from the working tree with the same seam, each in a fresh process with a different process-wide map seed (request on stdin, response from stdout). Responses must be byte-identical; under permutation the set of (name, content) pairs must be identical.",
    note="Schemas are limited to the linked files (no random-schema generator). Requests that protogen rejects produce no response and are outside the property. A divergence that does not replay is itself reported.",
    technique="deterministic simulation: seeded Go map iteration order and process restarts around the real generator and the real plugin binary; byte-equality oracle"),
+ "C28": dict(level="exploration", ref="DESIGN.md section 4 (C28, C11, C12)",
+   text=REFL + "all aspects are reported, plus: writes through read-only empty composites must panic.",
+   note="History refinement against a trusted model; the only genuinely schedule-dependent content is the concurrent read phases and race detection (no I/O, time or crash faults exist for this property). Sampling.",
+   technique="deterministic simulation: seeded operation histories with scheduled concurrent read phases, refinement against an abstract message model"),
+ "C11": dict(level="exploration", ref="DESIGN.md section 4 (C28, C11, C12)",
+   text=REFL + "this check reports presence aspects: Has vs model presence, presence across binary/JSON/text round trips, nothing unpopulated (no implicit-presence zero) in the encoding; it includes a per-field sweep that reaches every presence-bitmap word.",
+   note="Same machinery as C28 with a presence-heavy operation mix; value/Range/unknown mismatches are left to C28. For editions the resolved presence feature is read from the descriptor. Sampling.",
+   technique="deterministic simulation: seeded set/clear/round-trip histories with scheduled concurrent read phases, refinement against an abstract presence model"),
+ "C12": dict(level="exploration", ref="DESIGN.md section 4 (C28, C11, C12)",
+   text=REFL + "this check reports oneof aspects: at most one member populated, WhichOneof names it (Set/Mutable/Clear, Merge, binary input naming several members: last wins, round trips), and JSON/text input naming two members is rejected.",
+   note="Same machinery as C28 with a oneof-heavy operation mix; other mismatches are left to C28/C11. Sampling.",
+   technique="deterministic simulation: seeded oneof operation histories with scheduled concurrent read phases, refinement against an abstract message model"),
 }
 
 def main():
